@@ -22,12 +22,16 @@ Initializers == {"int", "float", "str", "bool", "none", "name", "call", "neg-int
                  "member", "lambda", "bytes", "complex", "ellipsis", "set", "index", "conditional", "fstring"}
 ClassForms == {"plain", "nested", "property", "property-setter", "overload", "overload-module", "staticmethod", "classmethod", "abstract", "dataclass", "exception",
                "enum", "intenum", "enum-empty", "nested-enum", "generic", "generic-bound", "generic-constraints", "generic-variance", "protocol", "namedtuple",
-               "class-attr-forms", "slots", "init-tuple-unpack", "multiple-inheritance", "private-base", "metaclass", "inner-function", "global-assign", "async-def", "decorated"}
+               "class-attr-forms", "slots", "init-tuple-unpack", "multiple-inheritance", "private-base", "metaclass", "inner-function", "global-assign", "async-def", "decorated",
+               "subscript-assign", "starred-assign", "private-foreign-base", "foreign-base-with-private-ancestors", "generic-named-like-builtin", "strenum-flag",
+               "attribute-docstrings", "redefinition", "init-conditional-attrs"}
 Reexports == {"name", "alias", "star", "module", "modalias", "absolute-name", "all-list", "type-checking-import"}
 Foreign == {"one-segment", "two-segment", "three-segment", "generic", "as-superclass", "typing-special"}
 ModuleCode == {"member-func-call", "member-class-use", "member-const", "type-alias", "typevar-expr", "local-import", "try-import", "conditional-def", "main-guard"}
 Docs == {"PLAINTEXT", "GOOGLE", "NUMPYDOC", "REST", "malformed-numpy", "malformed-google", "malformed-rest", "unicode", "raw-backslash",
-         "odd-types-numpy", "odd-types-google", "odd-types-rest"}        \* docstring type expressions that are not plain names
+         "odd-types-numpy", "odd-types-google", "odd-types-rest",
+         "member-named-like-module-numpy", "member-named-like-module-google", "member-named-like-module-rest",    \* gadget.py defines gadget() and Gadget.gadget()
+         "module-named-like-package-numpy"}                                                                       \* pkg/pkg.py        \* docstring type expressions that are not plain names
 
 Features ==
   { <<"param", k>> : k \in ParamKinds } \cup { <<"return", k>> : k \in ReturnExprs } \cup { <<"init", k>> : k \in Initializers }
